@@ -19,6 +19,7 @@ import (
 	"github.com/alpacahq/marketstore/v4/executor/wal"
 	"github.com/alpacahq/marketstore/v4/utils/io"
 	"github.com/alpacahq/marketstore/v4/utils/log"
+	"github.com/alpacahq/marketstore/v4/verifhook"
 )
 
 /*
@@ -232,6 +233,7 @@ func (wf *WALFileType) FlushToWAL() (err error) {
 	}
 
 	WTCount := len(wf.txnPipe.writeChannel)
+	verifhook.At("FlushToWAL.count", WTCount)
 	if WTCount == 0 {
 		// refresh TGID so requester can confirm it went through even if nothing is written
 		wf.txnPipe.IncrementTGID()
@@ -313,6 +315,7 @@ func (wf *WALFileType) FlushCommandsToWAL(writeCommands []*wal.WriteCommand) (er
 		if err := wf.FilePtr.Sync(); err != nil { // Flush the OS buffer
 			return fmt.Errorf("failed to flush wal data: %w", err)
 		}
+		verifhook.At("Flush.synced", TGID)
 
 		// send transaction to replicas
 		if wf.ReplicationSender != nil {
@@ -330,6 +333,7 @@ func (wf *WALFileType) FlushCommandsToWAL(writeCommands []*wal.WriteCommand) (er
 			// TODO: what should we do if the write commit partially failed?
 			log.Error(fmt.Sprintf("failed to write data to file %s: %s", keyPath, err.Error()))
 		}
+		verifhook.At("Flush.primary", keyPath)
 		for i, buffer := range writes {
 			wf.tpd.AppendRecord(keyPath, buffer.IndexAndPayload())
 			writes[i] = nil // for GC
@@ -477,7 +481,9 @@ func (wf *WALFileType) CreateCheckpoint() error {
 		return fmt.Errorf("write PREPARING transaction info: %w", err)
 	}
 	// Sync the filesystem, after this point the filesystem cache data is committed to disk
+	verifhook.At("Ckpt.beforeSync", TGID)
 	io.Syncfs()
+	verifhook.At("Ckpt.synced", TGID)
 	if err := wf.WriteTransactionInfo(TGID, CHECKPOINT, COMMITCOMPLETE); err != nil {
 		return fmt.Errorf("write COMMITCOMPLETE transaction info: %w", err)
 	}
@@ -730,15 +736,19 @@ func (wf *WALFileType) SyncWAL(walRefresh, primaryRefresh time.Duration, walRota
 		if !*wf.shutdownPending {
 			select {
 			case <-tickerWAL.C:
+				verifhook.At("SyncWAL.tickWAL")
 				if err := wf.FlushToWAL(); err != nil {
 					log.Error("[tickerWAL] failed to FlushToWAL: " + err.Error())
 				}
 			case f := <-wf.txnPipe.flushChannel:
+				verifhook.At("SyncWAL.flushReq")
 				if err := wf.FlushToWAL(); err != nil {
 					log.Error("[txnPipe.flushChannel] failed to FlushToWAL: " + err.Error())
 				}
+				verifhook.At("SyncWAL.flushReq.flushed")
 				f <- struct{}{}
 			case <-tickerCheck.C:
+				verifhook.At("SyncWAL.tickCheck")
 				queued := len(wf.txnPipe.writeChannel)
 				if float64(queued)/float64(chanCap) >= writeChannelCapThreshold {
 					if err := wf.FlushToWAL(); err != nil {
@@ -746,15 +756,18 @@ func (wf *WALFileType) SyncWAL(walRefresh, primaryRefresh time.Duration, walRota
 					}
 				}
 			case <-tickerPrimary.C:
+				verifhook.At("SyncWAL.tickPrimary")
 				if err := wf.CreateCheckpoint(); err != nil {
 					log.Error("failed to create WAL checkpoint", zap.Error(err))
 				}
 				primaryFlushCounter++
 				if primaryFlushCounter%walRotateInterval == 0 {
 					log.Info("Truncating WAL file...")
+					verifhook.At("SyncWAL.rotate.beforeTruncate")
 					if err := wf.FilePtr.Truncate(0); err != nil {
 						log.Error("failed to truncate wal file", zap.Error(err))
 					}
+					verifhook.At("SyncWAL.rotate.afterTruncate")
 					if err := wf.WriteStatus(wal.OPEN, wal.NOTREPLAYED); err != nil {
 						log.Error("failed to write NOT_REPLAYED status to wal", zap.Error(err))
 					}
@@ -763,6 +776,7 @@ func (wf *WALFileType) SyncWAL(walRefresh, primaryRefresh time.Duration, walRota
 			}
 		} else {
 			haveWALWriter = false
+			verifhook.At("SyncWAL.shutdown")
 			log.Info("Flushing to WAL...")
 			err := wf.FlushToWAL()
 			if err != nil {
@@ -785,6 +799,7 @@ func (wf *WALFileType) SyncWAL(walRefresh, primaryRefresh time.Duration, walRota
 // returns if there is already one queued which will handle the data
 // present in the write channel, as it will flush as soon as possible.
 func (wf *WALFileType) RequestFlush() {
+	verifhook.At("RequestFlush.enter")
 	if !haveWALWriter {
 		if err := wf.FlushToWAL(); err != nil {
 			log.Error("failed to flush WAL", zap.Error(err))
@@ -793,11 +808,15 @@ func (wf *WALFileType) RequestFlush() {
 	}
 	// if there's already a queued flush, no need to queue another
 	if len(wf.txnPipe.flushChannel) > 0 {
+		verifhook.At("RequestFlush.early")
 		return
 	}
+	verifhook.At("RequestFlush.push")
 	f := make(chan struct{})
 	wf.txnPipe.flushChannel <- f
+	verifhook.At("RequestFlush.pushed")
 	<-f
+	verifhook.At("RequestFlush.done")
 }
 
 func (wf *WALFileType) Shutdown() {
